@@ -293,3 +293,49 @@ Theorem C08_abf_force_coupling :
       = vget Rops (o_fabf (snd (abf_step Rops c (fst (abf_run Rops c h)) i))) k.
 Proof. exact abf_force_independent_of_other_biases. Qed.
 Print Assumptions C08_abf_force_coupling.
+
+(* ---- seeded change C08_2 -------------------------------------------------------------------------------- *)
+
+(* Total-force coupling with the applied force split as the pipeline routes it (C08_fb_routing): f = fb + fb_actual, and
+   f_old saved at colvar::end_of_step, AFTER fb_actual was added.  Whatever the ordinary AND the bypassing biases
+   (harmonicWalls) applied in two runs with the same system forces, the total force reported at t+1 is the system force of t. *)
+Theorem C08_total_force_coupling_routed :
+  forall (hA hB : list (R * (R * R))) (t : nat) (sA bA aA sB bB aB xA xB : R),
+    map fst hA = map fst hB ->
+    nth_error hA t = Some (sA, (bA, aA)) -> nth_error hB t = Some (sB, (bB, aB)) ->
+    nth_error (tf_trace_routed Rops true true true None 0 hA) (S t) = Some xA ->
+    nth_error (tf_trace_routed Rops true true true None 0 hB) (S t) = Some xB ->
+    xA = xB /\ xA = sA.
+Proof. exact total_force_coupling_routed. Qed.
+Print Assumptions C08_total_force_coupling_routed.
+
+Example C08_total_force_coupling_routed_premises :
+  exists (hA hB : list (R * (R * R))) t sA bA aA sB bB aB xA xB,
+    map fst hA = map fst hB /\ nth_error hA t = Some (sA, (bA, aA)) /\ nth_error hB t = Some (sB, (bB, aB)) /\
+    aA <> 0 /\
+    nth_error (tf_trace_routed Rops true true true None 0 hA) (S t) = Some xA /\
+    nth_error (tf_trace_routed Rops true true true None 0 hB) (S t) = Some xB.
+Proof. exact total_force_coupling_routed_premises_sat. Qed.
+
+(* The variant that saves f_old BEFORE "f += fb_actual" (late = false; the seeded change C08_2) violates it: the
+   bypassing biases' force of step t stays in the sample of step t+1. *)
+Theorem C08_total_force_coupling_early_fold_refuted :
+  exists (h : list (R * (R * R))) s fb fba x,
+    nth_error h 0 = Some (s, (fb, fba)) /\
+    nth_error (tf_trace_routed Rops false true true None 0 h) 1 = Some x /\ x = s + fba /\ x <> s.
+Proof. exact total_force_coupling_early_fold. Qed.
+
+(* C08_abf_coupling with the other biases' force written as the pipeline routes it: an fb part plus an fb_actual part
+   (harmonicWalls), any history of both: the ABF estimator is the one of the ABF bias alone. *)
+Theorem C08_abf_coupling_routed :
+  forall (c : @abf_cfg R) (o' : list bool) (hr : list (@abf_in R * (@vec R * @vec R))) (b : idx),
+    c_same_step c = false ->
+    (forall k, (k < c_nd c)%nat -> bget (c_subtract c) k = true) ->
+    wf_cfg c -> Forall (fun x => i_apply (fst x) = true) hr ->
+    let h := map fst hr in
+    let h' := map (fun x => with_other (c_nd c) (fst x) (fst (snd x)) (snd (snd x))) hr in
+    s_cnt (fst (abf_run Rops (set_other c o') h')) b = s_cnt (fst (abf_run Rops c h)) b /\
+    forall k, (k < c_nd c)%nat ->
+      vget Rops (s_sum (fst (abf_run Rops (set_other c o') h')) b) k = vget Rops (s_sum (fst (abf_run Rops c h)) b) k.
+Proof. exact abf_coupling_routed. Qed.
+Print Assumptions C08_abf_coupling_routed.
